@@ -388,6 +388,16 @@ class SelectedMailbox:
             if msg_sflags != updated_sflags:
                 self._silenced_sflags.add((msg.uid, updated_sflags))
 
+    def discard_marks(self) -> None:
+        """Discard :attr:`.hide_expunged` and the silenced flags, which are
+        otherwise only reset by :meth:`.fork`. This must be called when the
+        command that set them failed, so they do not affect the next command.
+
+        """
+        self._hide_expunged = False
+        self._silenced_flags.clear()
+        self._silenced_sflags.clear()
+
     def fork(self, command: Command) \
             -> tuple[SelectedMailbox, Iterable[UntaggedResponse]]:
         """Compares the state of the current object to that of the last fork,
